@@ -11,7 +11,8 @@ from ..refs import ec, der
 META = {
     "rule": "(i) generate() with an entropy tape (RSA 1024/1025/1031 bits x e in {3,5,17,257,65537,random odd}; DSA 1024 (+domain given); ElGamal 256; "
             "ECC nine curves); (ii) construct() with valid component tuples in every accepted shape and single-fault corruptions (n+-2, wrong d, "
-            "composite/Carmichael p, p*q != n, e even/1/>=n, wrong u; DSA composite p/q, q not dividing p-1, g of wrong order or in {0,1,p-1,p}, "
+            "composite/Carmichael p, p*q != n, e even/1/>=n, wrong u; DSA composite p/q (also as true single faults: composite p = p1*m or q = q1*q2 with every other domain condition holding), every domain fault "
+            "offered to DSA.generate(domain=) as well as construct(), q not dividing p-1, g of wrong order or in {0,1,p-1,p}, "
             "y != g^x, x in {0,q,q+1}; ElGamal analogues; ECC off-curve (x, y+-1), coordinates >= p, twist points, point at infinity, d in "
             "{0, order, order+1}, d not matching the point, wrong-length seeds, Montgomery low-order u and their non-canonical aliases, Edwards "
             "encodings with y >= p or no square root); (iii) import_key() on valid exports and on mutated encodings. Oracle: invariants evaluated "
@@ -230,8 +231,10 @@ def run_generate(case, rec):
 # ------------------------------------------------------------------ (ii) construct with corruptions
 RSA_FAULTS = ["valid-ne", "valid-ned", "valid-nedpq", "valid-nedpqu", "valid-swapped", "n+2", "n-2", "d+2", "d-wrong-mod", "p-composite", "p-carmichael",
               "pq!=n", "e-1", "e>=n", "u-wrong", "q-composite", "d=1", "d>=n", "n-even", "p=q", "q=0", "p=0", "n=0"]
-DSA_FAULTS = ["valid-4", "valid-5", "p-composite", "q-composite", "q-not-dividing", "g=0", "g=1", "g=p-1", "g=p", "g-wrong-order", "y!=g^x", "x=0", "x=q", "x=q+1",
+DSA_FAULTS = ["valid-4", "valid-5", "p-composite", "q-composite", "p-composite-only", "q-composite-only", "q-not-dividing", "g=0", "g=1", "g=p-1", "g=p", "g-wrong-order", "y!=g^x", "x=0", "x=q", "x=q+1",
               "y=0", "y=p", "y>=p", "q=0", "p=0"]
+DSA_DOMAIN_FAULTS = {"valid-4", "valid-5", "p-composite", "q-composite", "p-composite-only", "q-composite-only", "q-not-dividing", "g=0", "g=1", "g=p-1", "g=p",
+                     "g-wrong-order"}      # not q=0 / p=0: generate() answers ZeroDivisionError there, and C05 fixes no exception type for generate()
 ELG_FAULTS = ["valid-3", "valid-4", "p-composite", "g=1", "g=p", "y!=g^x", "x=0", "x=p", "y=0", "y=p"]
 ECC_FAULTS = ["valid-d", "valid-xy", "valid-dxy", "valid-seed", "off-curve-y+1", "off-curve-y-1", "x>=p", "y>=p", "infinity", "twist", "d=0", "d=n", "d=n+1",
               "d-mismatch", "d-mismatch-special", "d-mismatch-special", "seed-short", "seed-long", "mont-low-order", "mont-low-order-alias", "ed-not-on-curve", "x-only-for-ws", "d-and-seed"]
@@ -319,11 +322,22 @@ def run_construct(case, rec):
             "g=0": (y, 0, p, q, x), "g=1": (1, 1, p, q, x), "g=p-1": (pow(p - 1, x, p), p - 1, p, q, x), "g=p": (y, p, p, q, x),
             "g-wrong-order": (pow(2, x, p), 2, p, q, x), "y!=g^x": (y + 1, g, p, q, x), "x=0": (1, g, p, q, 0), "x=q": (1, g, p, q, q), "x=q+1": (g, g, p, q, q + 1),
             "y=0": (0, g, p, q), "y=p": (p, g, p, q), "y>=p": (y + p, g, p, q), "q=0": (y, g, p, 0, x), "p=0": (y, g, 0, q, x),
-        }[fault]
+        }.get(fault)
+        if tup is None:
+            # exactly one domain condition violated (the plain p-/q-composite faults above also break q | p-1 or g^q = 1)
+            p_, q_, g_ = keys.dsa_single_fault_domain(fault)
+            x_ = x % (q_ - 1) + 1
+            tup = (pow(g_, x_, p_), g_, p_, q_, x_)
         if fault == "g-wrong-order" and pow(2, q, p) == 1:
             raise Skip()
         f = lambda: DSA.construct(tup)
         entry = "DSA.construct"
+        if fault in DSA_DOMAIN_FAULTS and case["pos"] % 2:
+            # the same domain handed to generate(): it must be refused, or the key that comes back must satisfy every invariant
+            dom = (tup[2], tup[3], tup[1])
+            f = lambda: DSA.generate(1024, randfunc=Tape(case["seed"]), domain=dom)
+            entry = "DSA.generate(domain)"
+            info["entry"] = entry
     elif fam == "elgamal":
         p, g, y, x = keys.elgamal_numbers(256)
         tup = {"valid-3": (p, g, y), "valid-4": (p, g, y, x), "p-composite": (p + 2, g, y, x), "g=1": (p, 1, 1, x), "g=p": (p, p, y, x), "y!=g^x": (p, g, y + 1, x),
@@ -486,7 +500,7 @@ def run_construct(case, rec):
         if must_refuse is False:
             raise Violation("construct/%s/valid-refused/%s" % (fam, fault), "%s refused valid components (%s): %s" % (entry, fault, k), **info)
     rec.nt(fam, fault, case.get("curve"), case.get("bits"), kind)
-    rec.event("construct:%s:%s:%s" % (fam, fault, "accepted" if kind == "ok" else "refused"))
+    rec.event("construct:%s:%s:%s" % (fam if entry != "DSA.generate(domain)" else "dsa-generate", fault, "accepted" if kind == "ok" else "refused"))
     rec.sample(info)
 
 
